@@ -341,7 +341,8 @@ class Runner:
         if k == "un":
             a = R[s["a"]]
             op = s["op"]
-            r = {"neg": lambda: -a, "invert": lambda: ~a, "make_boolean": a.make_boolean, "isna": a.isna,
+            meth = self.fl.get("opform") == "method"
+            r = {"neg": (a.negate if meth else (lambda: -a)), "invert": (a.invert if meth else (lambda: ~a)), "make_boolean": a.make_boolean, "isna": a.isna,
                  "notna": a.notna, "copy": a.copy, "ffill": lambda: a.fillna("ffill"),
                  "bfill": lambda: a.fillna("bfill")}[op]()
             R[s["r"]] = r
@@ -351,7 +352,19 @@ class Runner:
             a, b = self.arg(s["a"]), self.arg(s["b"])
             f = {"add": o.add, "sub": o.sub, "mul": o.mul, "div": o.truediv, "lt": o.lt, "le": o.le, "gt": o.gt,
                  "ge": o.ge, "eq": o.eq, "ne": o.ne, "and": o.and_, "or": o.or_, "xor": o.xor}[s["op"]]
-            r = f(a, b)
+            if self.fl.get("opform") == "method":      # the named methods and their reflected forms instead of the operators
+                fwd, rev = {"add": ("add", "radd"), "sub": ("subtract", "rsubtract"), "mul": ("multiply", "rmultiply"),
+                            "div": ("divide", "rdivide"), "lt": ("lt", "gt"), "le": ("le", "ge"), "gt": ("gt", "lt"),
+                            "ge": ("ge", "le"), "eq": ("eq", "eq"), "ne": ("ne", "ne"), "and": ("logical_and", "logical_rand"),
+                            "or": ("logical_or", "logical_ror"), "xor": ("logical_xor", "logical_rxor")}[s["op"]]
+                if isinstance(a, sc.Stairs):
+                    r = getattr(a, fwd)(b)
+                elif isinstance(b, sc.Stairs):
+                    r = getattr(b, rev)(a)
+                else:
+                    r = f(a, b)
+            else:
+                r = f(a, b)
             if not isinstance(r, sc.Stairs):
                 return {"t": "err", "e": "other", "type": "NotStairs", "msg": f"operator returned {type(r).__name__}"}
             R[s["r"]] = r
@@ -585,11 +598,14 @@ class Runner:
             return {"t": "vals", "vals": a, "alt": b}
         if q == "fractile":
             ps = [float(p) for p in s["ps"]]
+            n_ = len(s["ps"]) + 1
+            if self.fl.get("opform") == "method" and n_ >= 2 and list(s["ps"]) == [F(i, n_) for i in range(1, n_)]:
+                return {"t": "vals", "vals": [num(v) for v in st.quantiles(n_)]}      # quantiles(q): the fractiles at i/q
             return {"t": "vals", "vals": [num(st.fractile(p)) for p in ps]}
         if q == "hist":
             ii = pd.IntervalIndex.from_tuples([(float(a), float(b)) for a, b in s["bins"]], closed=s["closed"])
             h = st.hist(bins=ii, stat=s["stat"])
-            return {"t": "vals", "vals": [num(v) if d.name in ("float", "int") or s["stat"] == "probability" else d.length_back(v)
+            return {"t": "vals", "vals": [num(v) if d.name in ("float", "int") or s["stat"] in ("probability", "density") else d.length_back(v)
                                            for v in h.values.tolist()]}
         if q == "vir":
             kw = {} if s.get("closed") is None else {"closed": s["closed"]}
